@@ -8,6 +8,7 @@ condition, takes one and queues the other.  The harness is re-executed once
 per path.  ``require`` discharges an obligation (pc and not phi must be
 unsat); ``sat`` gives a model, ``unknown`` is recorded as inconclusive.
 """
+import os
 import time
 import random
 from fractions import Fraction
@@ -953,6 +954,10 @@ class Engine(object):
             except BeyondBound as e:
                 status = 'cut'
                 self.path_notes.append('cut: %s' % e)
+                self.notes.append('NOTE: cut: %s' % (str(e)[:120],))
+                if os.environ.get('SYMX_DEBUG_CUT'):
+                    import traceback
+                    traceback.print_exc()
             except NotModelled as e:
                 status = 'notmodelled'
                 self.notes.append('NOT-MODELLED: %s' % (e,))
